@@ -6,6 +6,7 @@
 
 #include "tracer.h"
 
+#include <cmath>
 #include <functional>
 #include <map>
 #include <string>
@@ -393,6 +394,55 @@ inline std::vector<std::string> dictDistributions()
   }
   return out;
 }
+// exact decimal spelling of a double (glibc prints every digit)
+inline std::string exactDecimal(double x)
+{
+  char buf[1200];
+  snprintf(buf, sizeof buf, "%.1100f", x);
+  std::string s(buf);
+  if (s.find('.') != std::string::npos)
+  {
+    while (!s.empty() && s[s.size() - 1] == '0') s.erase(s.size() - 1);
+    if (!s.empty() && s[s.size() - 1] == '.') s.erase(s.size() - 1);
+  }
+  return s;
+}
+// sequences whose values cross a power of two 2^m with a step that is exact below 2^m and absorbed from 2^m on
+// (step = 2^(m-53), half the spacing of the doubles above 2^m)
+inline std::vector<std::string> dictAbsorbedSteps()
+{
+  std::vector<std::string> out;
+  for (int m : {1, 8, 16, 23, 24, 30, 40, 52, 53, 60, 100})
+  {
+    double T = std::ldexp(1.0, m), st = std::ldexp(1.0, m - 53);
+    for (int k : {2, 4, 10})
+    {
+      out.push_back("seq(from=" + exactDecimal(T - k * st) + ",to=" + exactDecimal(T + 2 * k * st) + ",step=" + exactDecimal(st) + ")");
+      out.push_back("seq(from=" + exactDecimal(T - k * st) + ",to=" + exactDecimal(T + 2 * k * st) + ",step=" + exactDecimal(st) + ",scale=log)");
+    }
+    // a step of one spacing below 2^m is fine on both sides, 3/4 of it is absorbed above: both must end
+    out.push_back("seq(from=" + exactDecimal(T - 4 * st) + ",to=" + exactDecimal(T + 16 * st) + ",step=" + exactDecimal(2 * st) + ")");
+    out.push_back("seq(from=" + exactDecimal(T - 3 * st) + ",to=" + exactDecimal(T + 16 * st) + ",step=" + exactDecimal(1.5 * st) + ")");
+  }
+  for (const char* x : {"seq(from=9007199254740990,to=9007199254741000,step=1)", "seq(from=9007199254740990,to=9007199254741000,step=0.5)",
+                        "seq(from=16777214,to=16777220,step=0.000000001)", "seq(from=-9007199254741000,to=-9007199254740990,step=1)"})
+    out.push_back(x);
+  return out;
+}
+// number spellings of extreme magnitude in a given (decimal separator, exponent character) style
+inline std::vector<std::string> dictStyledNumbers(char dec, char sci)
+{
+  std::vector<std::string> base = {"1.5e999", "1.5e-999", "-1.5e999", "7e400", "1e-400", "1.5e308", "2e308", "1.7976931348623157e308", "1.7976931348623159e308",
+                                   "4.9e-324", "2e-324", "1e" + std::string(400, '9'), "1e-" + std::string(400, '9'), "0.5", "1.5e10", "1e+5", ".5", "5.",
+                                   std::string(400, '9') + ".5", "0." + std::string(400, '0') + "1"};
+  for (auto& b : base)
+    for (auto& c : b)
+    {
+      if (c == '.') c = dec;
+      else if (c == 'e') c = sci;
+    }
+  return base;
+}
 inline std::vector<std::string> dictVectors()
 {
   // getVector: "seq(from=..,to=..,step=..|size=..[,scale=..])" with every combination of extreme values, and plain lists
@@ -417,6 +467,7 @@ inline std::vector<std::string> dictVectors()
     out.push_back(v + "," + v);
   }
   for (const auto& v : vectorValues()) out.push_back(v);
+  for (const auto& v : dictAbsorbedSteps()) out.push_back(v);
   return out;
 }
 inline std::vector<std::string> dictSequences()
